@@ -33,6 +33,9 @@ func (Engine) Generate(prop string, r *sim.Rand, tier string) *sim.Plan {
 	case "C13":
 		return genC13(r, tier)
 	case "C10":
+		if r.Chance(0.04) {
+			return chainsim.Generate(prop, r, tier) // second sentence of the statement: transaction and receipt roots of executed blocks
+		}
 		return genC10(r, tier)
 	case "C12", "C09":
 		if r.Chance(0.25) {
@@ -59,6 +62,9 @@ func (Engine) Execute(prop string, p *sim.Plan, keep bool) (res *sim.Result) {
 	case "C13":
 		return execC13(p, keep)
 	case "C10":
+		if nodeLevel(p.Config) {
+			return chainsim.Execute(prop, p, keep)
+		}
 		return execC10(p, keep)
 	case "C12", "C09":
 		if nodeLevel(p.Config) {
@@ -76,6 +82,9 @@ func (Engine) Execute(prop string, p *sim.Plan, keep bool) (res *sim.Result) {
 func (Engine) SimplifyStep(prop string, s json.RawMessage) []json.RawMessage {
 	switch prop {
 	case "C10":
+		if !bytes.Contains(s, []byte(`"writes"`)) {
+			return chainsim.SimplifyStep(s) // a node-level step (ledger-level steps are write sets)
+		}
 		return simplifyC10Step(s)
 	case "C12", "C09", "C11":
 		if prop != "C11" && nodeLevelStep(s) {
@@ -89,6 +98,9 @@ func (Engine) SimplifyStep(prop string, s json.RawMessage) []json.RawMessage {
 func (Engine) SimplifyConfig(prop string, c json.RawMessage) []json.RawMessage {
 	switch prop {
 	case "C10":
+		if nodeLevel(c) {
+			return chainsim.SimplifyConfig(c)
+		}
 		return simplifyC10Config(c)
 	case "C11":
 		return simplifyC11Config(c)
